@@ -245,4 +245,8 @@ def run(ck):
     _c7.import_results(ck, _m("C05"), "1", "Poll::poll", "5")  # the wait is made on every poll; a due timer does not starve the eventfd
     _c7.import_results(ck, _m("C02"), "2", "Poll::poll", "5")
     _c7.import_results(ck, _m("C20"), "4", "increment_version", "5")  # a ping source inserted into a recycled slot keeps its own key
-
+    # ---- shared clauses demonstrated by seeding round 8 (the property broken by added code) --------------------
+    from props import common as _c8
+    import importlib as _il8
+    _m8 = lambda n: _il8.import_module('props.' + n)
+    _c8.import_results(ck, _m8("C02"), "1", "dispatch_events", "5")  # every event of the batch reaches its source (no side list decides to skip it)
